@@ -66,8 +66,15 @@ static void one_state(const struct hist *h, const struct opscope *sc, int mutate
   mc_report_faults("equivalence");
   if (orig_ok) { int pre = 0; if (MC_TRY(20000)) { hwloc_topology_check(t); mc_try_end(); } if (mc_fault[0]) { pre = 1; mc_fault[0] = 0; } mc_clear_san(); if (!pre) wf_builtin_check_mc(d, "dup"); }
   struct op *ops = NULL; int nops = mutate ? ops_enumerate(t, sc, &ops) : 0;
+  /* a second copy, taken after the original was refreshed (the lazy caches of distances and memory attributes are rebuilt,
+   * entries of removed objects are gone, arrays may be empty but still allocated): equivalent too, and it shares nothing
+   * either - the three topologies are destroyed below, ASan sees any block freed twice */
+  hwloc_topology_t d2 = NULL;
+  if (MC_TRY(60000)) { hwloc_topology_refresh(t); if (hwloc_topology_dup(&d2, t) < 0) d2 = NULL; if (d2) check_equivalent(t, d2, "dup-after-refresh"); mc_try_end(); }
+  MC.transitions++;
+  if (mc_report_faults("dup-after-refresh")) d2 = NULL;
   /* destroy order alternates */
-  if (MC_TRY(30000)) { if (h->n & 1) { hwloc_topology_destroy(t); hwloc_topology_destroy(d); } else { hwloc_topology_destroy(d); hwloc_topology_destroy(t); } mc_try_end(); }
+  if (MC_TRY(30000)) { if (h->n & 1) { hwloc_topology_destroy(t); hwloc_topology_destroy(d); if (d2) hwloc_topology_destroy(d2); } else { if (d2) hwloc_topology_destroy(d2); hwloc_topology_destroy(d); hwloc_topology_destroy(t); } mc_try_end(); }
   mc_report_faults("destroy");
   for (int i = 0; i < nops; i++) {
     static struct sb ob; if (!ob.s) sb_init(&ob); sb_reset(&ob); op_print(&ob, &ops[i]);
